@@ -1,6 +1,7 @@
 package main
 
 import (
+	"runtime"
 	"context"
 	"fmt"
 	"os"
@@ -23,7 +24,19 @@ var solverCmds = map[string]func(file string, timeoutS int) []string{
 	"cvc5":   func(f string, t int) []string { return []string{"cvc5", fmt.Sprintf("--tlimit=%d", t*1000), f} },
 }
 
+var procSem = make(chan struct{}, maxProcs())
+
+func maxProcs() int {
+	n := runtime.NumCPU()
+	if n < 2 {
+		n = 2
+	}
+	return n
+}
+
 func runOne(solver, file string, timeoutS int) SolverAnswer {
+	procSem <- struct{}{}
+	defer func() { <-procSem }()
 	args := solverCmds[solver](file, timeoutS)
 	ctx, cancel := context.WithTimeout(context.Background(), time.Duration(timeoutS+5)*time.Second)
 	defer cancel()
